@@ -65,7 +65,7 @@ for diff in sorted(glob.glob(os.path.join(a.out_dir, 'change*.diff'))):
         for c in checks:
             env = dict(os.environ, KERNPY_SRC=tree)
             try:
-                rr = subprocess.run(['/venv/bin/python', RUN_HOME + '/run.py', 'check', c, '--tier', a.tier, '--no-confirm'], capture_output=True, text=True, env=env, timeout=1500)
+                rr = subprocess.run(['/venv/bin/python', RUN_HOME + '/run.py', 'check', c, '--tier', a.tier], capture_output=True, text=True, env=env, timeout=1500)
             except subprocess.TimeoutExpired:
                 broken.append(c)
                 detail[c] = 'timeout after 1500 s'
